@@ -18,6 +18,7 @@ package main
 
 import (
 	"fmt"
+	"strings"
 
 	"github.com/cockroachdb/redact"
 )
@@ -61,6 +62,21 @@ func buildSharedOne(v *Val) sharedObj {
 			return sharedObj{val: sb, kind: "*StringBuilder", fp: fp}
 		}
 		return sharedObj{val: *sb, kind: "StringBuilder", fp: fp}
+	case "argslist":
+		// an argument list, passed as args... (values.go, buildAll)
+		var e0 env
+		e0.defs = map[int]*Val{}
+		list := make([]interface{}, len(v.V))
+		for i := range v.V {
+			list[i] = e0.build(&v.V[i])
+		}
+		return sharedObj{val: list, kind: "argument list", fp: func() string {
+			var sb strings.Builder
+			for _, x := range list {
+				fmt.Fprintf(&sb, "%T=%+v;", x, x)
+			}
+			return sb.String()
+		}}
 	case "mbval":
 		// a ManualBuffer (a Stringer) with pending unsafe text and room to spare
 		mb := new(redact.ManualBuffer)
@@ -121,6 +137,16 @@ func buildSharedOne(v *Val) sharedObj {
 // simBytes: a named byte-slice type without methods.
 type simBytes []byte
 
+func sharedIsArgs(i int64) bool {
+	if len(sharedObjs) == 0 {
+		return false
+	}
+	if i < 0 {
+		i = -i
+	}
+	return sharedObjs[int(i)%len(sharedObjs)].kind == "argument list"
+}
+
 func sharedVal(i int64) interface{} {
 	if len(sharedObjs) == 0 {
 		return nil
@@ -147,6 +173,30 @@ func checkShared(where string) (viol []Violation) {
 }
 
 // ---- generation ---------------------------------------------------------
+
+// argsSpec: a short list of plain operands, with wrapped integers where a
+// '*' may look for its width.
+func (g *gen) argsSpec() Val {
+	wrapInt := func() Val {
+		return Val{K: g.pick([]string{"safe", "unsafe"}), V: []Val{{K: "int", I: int64(2 + g.r.Intn(12))}}}
+	}
+	v := Val{K: "argslist"}
+	for i, n := 0, 2+g.r.Intn(3); i < n; i++ {
+		switch g.r.Intn(5) {
+		case 0:
+			v.V = append(v.V, wrapInt())
+		case 1:
+			v.V = append(v.V, Val{K: "int", I: int64(2 + g.r.Intn(12))})
+		case 2:
+			v.V = append(v.V, Val{K: g.pick([]string{"safe", "unsafe"}), V: []Val{{K: "str", S: Str(g.lit())}}})
+		default:
+			v.V = append(v.V, g.simple2())
+		}
+	}
+	return v
+}
+
+var argsFormats = []string{"%v %v", "%[1]v|%[1]*[2]v|", "%*v|%v", "%.*v|", "%[2]*[1]v|%v", "%-*v|%v", "%v %d %s", "%[1]*v", "%v%[2]*[1]d|", "%+v %#v", "%*.*v|"}
 
 func (g *gen) sharedSpec() Val {
 	if g.chance(0.12) {
@@ -188,6 +238,19 @@ var sharedFormats = []string{"%-12s|", "%-9.3s|", "%s", "%v", "%x", "%q", "%-20v
 // sharedOp prints one shared value, alone or among other operands.
 func (g *gen) sharedOp(depth int) Op {
 	sh := Val{K: "shared", I: int64(g.r.Intn(g.shared))}
+	if g.sharedArgs[int(sh.I)] {
+		// the whole argument list is the shared value
+		switch g.r.Intn(6) {
+		case 0:
+			return Op{K: "sprint", A: []Val{sh}}
+		case 1:
+			return Op{K: "fprintf", F: Str(g.lit() + g.pick(argsFormats)), A: []Val{sh}, W: g.writer(depth)}
+		case 2:
+			return Op{K: "errorf", F: Str(g.lit() + g.pick(argsFormats)), A: []Val{sh}}
+		default:
+			return Op{K: "sprintf", F: Str(g.lit() + g.pick(argsFormats)), A: []Val{sh}}
+		}
+	}
 	switch g.r.Intn(7) {
 	case 5:
 		return Op{K: "jointo", F: Str(g.redactableLit()), A: []Val{sh}, Dst: g.safeScriptNoCtl(g.r.Intn(2))}
